@@ -217,9 +217,12 @@ fn read(rng: &mut Rng, ctx: &mut Ctx) {
         let (r, tags) = gen_replay(rng, k, &go);
         let b = encode(&r);
         let hash = k % 3 == 0;
+        // history: every other hashed read follows a hashed read of a truncated copy that fails part-way (same thread): nothing of it may carry over
+        if hash && k % 2 == 0 { let cut = [b.len() * 2 / 3, b.len().saturating_sub(1), 20.min(b.len())][(k / 6) % 3]; let o = read_opts(k % 4 == 0, true);
+            let _ = std::panic::catch_unwind(|| slippi::read(Cursor::new(&b[..cut]), Some(&o)).is_ok()); }
         // full read
         let (line, g) = read_line(&b, false, hash);
-        let mut c = Case::new(read_cmd(false, hash, &b), line.clone()); c.tags = tags.clone(); c.tags.push(format!("hash{}", hash as u8));
+        let mut c = Case::new(read_cmd(false, hash, &b), line.clone()); c.tags = tags.clone(); c.tags.push(format!("hash{}", hash as u8)); if hash && k % 2 == 0 { c.tags.push("after-failed-read".into()); }
         let xx = format!("xxh3:{:016x}", xxhash_rust::xxh3::xxh3_64(&b));
         match &g { None => { for p in ["C01", "C04"] { c.fail(p, format!("well-formed replay rejected: {}", line)); } }
             Some(g) => {
@@ -231,6 +234,10 @@ fn read(rng: &mut Rng, ctx: &mut Ctx) {
         let (line2, or) = match &g { None => (line.clone(), None), Some(g) => match write_slp(g) { Ok(o) => (format!("ok {}", hex(&o)), (o != b).then(|| format!("write(read(x)) differs from x at byte {}", o.iter().zip(&b).position(|(a, b)| a != b).unwrap_or(o.len().min(b.len()))))), Err(e) => (e.clone(), Some(format!("write(read(x)) failed: {}", e))) } };
         let mut c = Case::new(format!("rt {}", hex(&b)), line2); c.tags = vec!["rt".into()];
         if let Some(m) = or { c.fail("C01", m.clone()); c.fail("C17", m); }
+        // C16 on whole files: what follows the raw element (the metadata element, or its absence) is reproduced byte for byte
+        if let (Some(g), true) = (&g, b.len() >= 15) { if let Ok(o) = write_slp(g) { let t = 15 + u32::from_be_bytes([b[11], b[12], b[13], b[14]]) as usize;
+            if t <= b.len() && t <= o.len() && o[..t] == b[..t] && o[t..] != b[t..] { c.fail("C16", format!("the metadata element is not reproduced by the .slp writer ({} bytes after the raw element, {} in the original; Game End {})", o.len() - t, b.len() - t, if r.end.is_some() { "present" } else { "absent" })); }
+            if g.metadata.is_some() != r.metadata.is_some() { c.fail("C16", "presence of the metadata element not reported as in the file"); } } }
         // the same game written into sinks that accept a few bytes per call (pipes, sockets, encoders), are interrupted, or fail
         if k % 4 == 2 { if let Some(g) = &g { if let Ok(o) = write_slp(g) {
             let kk = [1usize, 3, 5, 64, 300, 4096][(k / 4) % 6];
